@@ -42,13 +42,14 @@ class Handler(BaseHTTPRequestHandler):
                 ranges.append((a, min(z, len(data) - 1)))
         with srv.lock:
             srv.log.append((self.path, rh, None))
+            self.log_idx = (srv.epoch, len(srv.log) - 1)      # requests of several connections are in flight at once: mark by index
         if ranges == "unsatisfiable":
             self.send_response(416); self.send_header("Content-Range", "bytes */%d" % len(data)); self.send_header("Content-Length", "0"); self.end_headers()
-            srv.mark(416)
+            srv.mark(416, self.log_idx)
             return
         if not ranges or len(ranges) > maxr:
             self.send_response(200); self.send_header("Content-Length", str(len(data))); self.send_header("Accept-Ranges", "bytes"); self.end_headers()
-            srv.mark(200)
+            srv.mark(200, self.log_idx)
             try:
                 self.wfile.write(data)
             except (BrokenPipeError, ConnectionResetError):
@@ -60,7 +61,7 @@ class Handler(BaseHTTPRequestHandler):
             self.send_response(206)
             self.send_header("Content-Range", "bytes %d-%d/%d" % (a, z, len(data)))
             self.send_header("Content-Length", str(len(body))); self.send_header("Accept-Ranges", "bytes"); self.end_headers()
-            srv.mark(206)
+            srv.mark(206, self.log_idx)
             self.wfile.write(body)
             return
         bd = "vf7c1e5b2a9d04"
@@ -72,7 +73,7 @@ class Handler(BaseHTTPRequestHandler):
         self.send_response(206)
         self.send_header("Content-Type", "multipart/byteranges; boundary=%s" % bd)
         self.send_header("Content-Length", str(len(body))); self.send_header("Accept-Ranges", "bytes"); self.end_headers()
-        srv.mark(206)
+        srv.mark(206, self.log_idx)
         self.wfile.write(bytes(body))
 
 
@@ -83,6 +84,7 @@ class Server(ThreadingHTTPServer):
         super().__init__(("127.0.0.1", 0), Handler)
         self.files = {}
         self.log = []
+        self.epoch = 0
         self.lock = threading.Lock()
         self.port = self.server_address[1]
         self.thread = threading.Thread(target=self.serve_forever, daemon=True)
@@ -95,15 +97,19 @@ class Server(ThreadingHTTPServer):
             return
         super().handle_error(request, client_address)
 
-    def mark(self, code):
+    def mark(self, code, idx):
         with self.lock:
-            p, r, _ = self.log[-1]
-            self.log[-1] = (p, r, code)
+            epoch, i = idx
+            if epoch != self.epoch or i >= len(self.log):
+                return          # the log was taken in the meantime (a straggler of an earlier run)
+            p, r, _ = self.log[i]
+            self.log[i] = (p, r, code)
 
     def take_log(self):
         with self.lock:
             l = self.log
             self.log = []
+            self.epoch += 1
         return l
 
     def stop(self):
